@@ -78,6 +78,9 @@ def run_steps(resolver):
     """drive a MoleculeResolver level by level; per level record what the model needs as input and
     what the implementation returned (or the exception class)"""
     steps = []
+    # the libraries as handed over at construction: the resolver's own list is internal state (a resolver that
+    # consumes or re-orders it must not change what the model is compared on)
+    libraries = list(resolver.fragment_dicts)
     for level in range(resolver.resolutions):
         rec = {'level': level}
         all_atom = (resolver.resolution_counter == resolver.resolutions - 1 and resolver.last_all_atom)
@@ -85,7 +88,7 @@ def run_steps(resolver):
         rec['legacy'] = bool(resolver.legacy)
         try:
             rec['meta'] = meta_request(resolver.molecule)
-            rec['frags'] = frags_request(resolver.fragment_dicts[resolver.resolution_counter])
+            rec['frags'] = frags_request(libraries[level])
         except Unsupported as err:
             rec['unsupported'] = str(err)
         with AromRecorder() as arom, quiet():
